@@ -151,6 +151,7 @@ func (p *Program) VerifyFunc(fi *FuncInfo) (res *FuncResult) {
 	}
 	// entry state
 	e.prepareBody(fi.Pkg.TypesInfo, fi.Decl.Body)
+	e.computeTaint(fi)
 	e.keepVar = map[types.Object]bool{}
 	for _, cl := range append(append([]*Clause{}, c.Ensures...), c.Aux...) {
 		ast.Inspect(cl.Expr, func(n ast.Node) bool {
